@@ -96,6 +96,7 @@ structure Server where
   laststatsrv : Nat := 0
   timeout : Nat := 0
   ssRequested : Bool := false
+  gone : Bool := false              -- `freeserver` has run: the conf has no server object any more
 deriving Repr
 
 structure Client where
@@ -469,7 +470,10 @@ def noServerOutcome (r : Realm) (code : UInt8) : NoServer :=
   else .ignore
 
 def chooseEntry (w : World) (si : Nat) : Choose.Entry :=
-  match getSrv w si with | some s => some (s.state, s.lost) | none => none
+  match getSrv w si with | some s => if s.gone then none else some (s.state, s.lost) | none => none
+
+/-- `conf->servers == NULL` -/
+def srvGone (w : World) (si : Nat) : Bool := match getSrv w si with | some s => s.gone | none => false
 
 /-- `choosesrvconf` on a list of server indices, applying its counter side effect -/
 def choosesrv (w : World) (l : List Nat) : World × Option Nat :=
@@ -540,6 +544,8 @@ def radsrvRoute (w : World) (o : Nat) (cc : CliConf) (m0 : Msg) (as3 : List Tlv)
     let (w, to) := match realmServers realm m0.code with
       | some l => choosesrv w l
       | none => (w, none)
+    -- `server = srvconf->servers`: a chosen conf whose server object is gone gives no server
+    let to := to.bind fun si => if srvGone w si then none else some si
     match to with
     | none =>
       (match noServerOutcome realm m0.code with
@@ -940,6 +946,15 @@ def noDangling (w : World) : Bool :=
 def connReset (w : World) (si : Nat) : World :=
   updSrv w si fun s => { s with state := 2, lost := 0, conreset := true }
 
+/-- what `clientwr` does when it finds its reader gone (`errexit`): `freeserver` releases every outstanding slot
+    and the server object; the conf is left without one -/
+def freeSlots (w : World) (si : Nat) : Nat → World
+  | 0 => w
+  | n+1 => freerqoutdata (freeSlots w si n) si n
+
+def rmserver (w : World) (si : Nat) : World :=
+  updSrv (freeSlots w si 256) si fun s => { s with gone := true, newrq := false, conreset := false }
+
 /-! ### UDP listener (udp.c: udpserverrd / radudpget) -/
 
 /-- `find_clconf(handle, from)`: first UDP client block whose host list contains the source -/
@@ -1052,6 +1067,7 @@ inductive Op
   | udpnas (ip : Bytes)                 -- a source address becomes known to the harness
   | udpsend (nas : Nat) (pkt : Bytes)   -- a datagram from source `nas`: association handling, `radsrv`, next object allocated
   | tcpconn (src : Bytes) (script : List Stream.Ev)   -- a whole TCP connection from address `src` whose peer follows the script
+  | rmserver (si : Nat)                 -- the writer of server `si` finds its reader gone: the server object is released
 
 /-- one operation -/
 def step (w : World) : Op → World
@@ -1074,6 +1090,7 @@ def step (w : World) : Op → World
   | .udpnas ip => { w with nas := w.nas ++ [ip] }
   | .udpsend n pkt => udpLoopTop (udpRecv w n pkt).1
   | .tcpconn src script => tcpConn w src script
+  | .rmserver si => rmserver w si
 
 
 end Rsp.World
